@@ -23,12 +23,12 @@ const (
 
 func checkC14(c *core.Ctx) {
 	c.Rule(rC14Disp, "EvalTemporalLiteral sends each TemporalOperatorType to the evaluator of the same name and rejects unknown kinds with an error", 5)
-	c.Rule(rC14Op, "each operator evaluator, read from source and evaluated against a stub store that answers GetFactsDuring by closed-interval overlap and GetAllFacts by everything, over all small windows [d1<=d2], evaluation time 10 and fact intervals (finite, left-/right-unbounded): a diamond yields exactly the facts that hold at some instant of the window, a box exactly those whose interval covers it; the window lies d2..d1 before (minus) resp. d1..d2 after (plus) the evaluation time; 'now' resolves to the evaluation time", 4)
+	c.Rule(rC14Op, "each operator evaluator, read from source and evaluated against a stub store that answers GetFactsDuring by closed-interval overlap and GetAllFacts by everything, over all small windows [d1<=d2], evaluation time 10 and fact intervals (finite, left-/right-unbounded): a diamond yields exactly the facts that hold at some instant of the window, a box exactly those whose interval covers it; the window lies d2..d1 before (minus) resp. d1..d2 after (plus) the evaluation time; 'now' resolves to the evaluation time; intervalContains(a,b) is a.start <= b.start && b.end <= a.end with -inf/+inf; an annotation with unbound variables enumerates every stored interval of a matching atom and binds both ends; a concrete annotation matches facts covering it and never disjoint ones", 6)
 	c.Rule(rC14Bind, "bindIntervalVariables unifies the start variable with the fact's start time and the end variable with its end time", 1)
 	c.Rule(rC14Head, "ResolveHeadTime maps timestamp, now, -inf/+inf and variables bound to number or time constants to the start and end of the result in that order, and fails on an unbound variable", 1)
 	c.Rule(rC14Flow, "the interval resolved from the head annotation is the one attached to every derived fact, and the one passed to temporalStore.Add", 3)
 	c.Rule(rC14Rel, "DecideTemporalPredicate, evaluated for all orderings of the four end points, equals the documented definition of each of the nine interval relations; converse pairs follow from that", 9)
-	c.Rule(rC14Fld, "a function that builds a clause from another clause keeps its HeadTime (a delta rule without the annotation writes plain facts)", 2)
+	c.Rule(rC14Fld, "a function that builds a clause from another clause keeps its HeadTime, and one that rebuilds a temporal literal keeps Literal, Operator and Interval (a delta rule without them is a different rule)", 4)
 	k := newTkit(c, rC14Op)
 	if !k.ok {
 		return
@@ -40,6 +40,189 @@ func checkC14(c *core.Ctx) {
 	c14Flow(c)
 	c14Relations(c, k)
 	clauseFieldCompleteness(c, rC14Fld, []string{"engine.makeSingleDeltaRule", "engine.normalizeRule"}, []string{"HeadTime"})
+	structRebuildCompleteness(c, rC14Fld, "ast.TemporalLiteral", []string{"engine.makeSingleDeltaRule", "engine.normalizeRule"})
+	c14IntervalContains(c, k)
+	c14Annotation(c, k)
+}
+
+// c14IntervalContains: engine.intervalContains(a, b) == (a.start <= b.start && b.end <= a.end) over -inf/timestamp starts and timestamp/+inf ends.
+func c14IntervalContains(c *core.Ctx, k *tkit) {
+	f := c.MustFunc(rC14Op, "engine", "TemporalEvaluator.intervalContains")
+	if f == nil {
+		return
+	}
+	in := ordabs.New(c.Prog)
+	te := &ordabs.Obj{Name: "te", Fields: map[string]ordabs.Value{}}
+	bad, n, ok := "", 0, true
+	ordabs.Tuples(4, 3, func(v []int64) bool {
+		for mask := 0; mask < 16; mask++ {
+			a := fixFact{k.TS, v[0], k.TS, v[1]}
+			b := fixFact{k.TS, v[2], k.TS, v[3]}
+			if mask&1 != 0 {
+				a.st = k.NEG
+			}
+			if mask&2 != 0 {
+				a.et = k.POS
+			}
+			if mask&4 != 0 {
+				b.st = k.NEG
+			}
+			if mask&8 != 0 {
+				b.et = k.POS
+			}
+			in.Reset()
+			out, err := in.Call(f, te, []ordabs.Value{k.iv(a.st, a.s, a.et, a.e), k.iv(b.st, b.s, b.et, b.e)})
+			if !runORD(c, rC14Op, f.Name, f, err) {
+				ok = false
+				return false
+			}
+			n++
+			want := a.lo(k) <= b.lo(k) && b.hi(k) <= a.hi(k)
+			if got, _ := out[0].(bool); got != want {
+				bad = fmt.Sprintf("a=kinds(%d,%d)[%d,%d] b=kinds(%d,%d)[%d,%d]: intervalContains(a,b)=%v, but a covers b is %v (kind %d is -inf, %d is +inf)", a.st, a.et, a.s, a.e, b.st, b.et, b.s, b.e, got, want, k.NEG, k.POS)
+				return false
+			}
+		}
+		return true
+	})
+	if ok {
+		c.Check(bad == "", rC14Op, f.Name, f.Decl.Pos(), fmt.Sprintf("equals a.start <= b.start && b.end <= a.end on %d kind/ordering combinations", n), bad)
+	}
+}
+
+// c14Annotation: a premise p(X)@[...] without operator. Concrete annotation: facts whose interval covers it;
+// variable annotation: every fact, bound to its interval; no annotation: facts valid at the evaluation time.
+func c14Annotation(c *core.Ctx, k *tkit) {
+	f := c.MustFunc(rC14Op, "engine", "TemporalEvaluator.evalTemporalAtomWithoutOperator")
+	if f == nil {
+		return
+	}
+	atomT := c.Prog.Named("ast", "Atom")
+	tfT := c.Prog.Named("factstore", "TemporalFact")
+	if atomT == nil || tfT == nil {
+		c.Unres(rC14Op, f.Name, 0, "anchor-unresolved: ast.Atom / factstore.TemporalFact")
+		return
+	}
+	const T = 10
+	in := ordabs.New(c.Prog)
+	in.InstallTimeStubs()
+	var facts []fixFact
+	mkTF := func(x fixFact) ordabs.Value {
+		z, _ := ordabs.ZeroOf(tfT)
+		r := z.(*ordabs.Rec)
+		r.Fields["Interval"] = k.iv(x.st, x.s, x.et, x.e)
+		return r
+	}
+	binds := 0
+	in.Stubs["unionfind.UnifyTermsExtend"] = func(in *ordabs.Interp, _ ordabs.Value, args []ordabs.Value) ([]ordabs.Value, error) {
+		if xs, _ := args[0].(*ordabs.Slice); xs != nil && len(*xs.Elems) == 1 {
+			binds++
+		}
+		return []ordabs.Value{args[2], nil}, nil
+	}
+	in.Stubs["unionfind.UnionFind.Get"] = func(in *ordabs.Interp, _ ordabs.Value, args []ordabs.Value) ([]ordabs.Value, error) {
+		return []ordabs.Value{args[0]}, nil // every variable is unbound
+	}
+	in.Stubs["fmt.Errorf"] = func(in *ordabs.Interp, _ ordabs.Value, _ []ordabs.Value) ([]ordabs.Value, error) {
+		return []ordabs.Value{ordabs.ErrVal{Tag: "err"}}, nil
+	}
+	in.Stubs["factstore.ReadOnlyTemporalFactStore.GetFactsDuring"] = func(in *ordabs.Interp, _ ordabs.Value, args []ordabs.Value) ([]ordabs.Value, error) {
+		q, ok := recInterval(k, args[1])
+		if !ok {
+			return nil, &ordabs.Unsupported{What: "GetFactsDuring called with a non-interval"}
+		}
+		for _, x := range facts {
+			if x.lo(k) <= q.hi(k) && q.lo(k) <= x.hi(k) {
+				if out, err := in.CallValue(args[2], []ordabs.Value{mkTF(x)}); err != nil {
+					return nil, err
+				} else if out[0] != nil {
+					return out, nil
+				}
+			}
+		}
+		return []ordabs.Value{nil}, nil
+	}
+	in.Stubs["factstore.ReadOnlyTemporalFactStore.GetAllFacts"] = func(in *ordabs.Interp, _ ordabs.Value, args []ordabs.Value) ([]ordabs.Value, error) {
+		for _, x := range facts {
+			if out, err := in.CallValue(args[1], []ordabs.Value{mkTF(x)}); err != nil {
+				return nil, err
+			} else if out[0] != nil {
+				return out, nil
+			}
+		}
+		return []ordabs.Value{nil}, nil
+	}
+	// Interval.Contains(t time.Time) is interpreted from source; it needs t.UnixNano (stubbed above).
+	te := &ordabs.Obj{Name: "te", Fields: map[string]ordabs.Value{"temporalStore": &ordabs.Obj{Name: "store", Opaque: true}, "evaluationTime": ordabs.TimeVal{NS: T}}}
+	az, _ := ordabs.ZeroOf(atomT)
+	subst := &ordabs.Rec{Fields: map[string]ordabs.Value{}, T: "unionfind.UnionFind"}
+	run := func(ann *ordabs.Rec, x fixFact) (int, bool) {
+		facts = []fixFact{x}
+		binds = 0
+		var ap ordabs.Value = (*ordabs.Obj)(nil)
+		if ann != nil {
+			ap = &ordabs.Obj{Name: "annotation", Fields: ann.Fields}
+		}
+		in.Reset()
+		out, err := in.Call(f, te, []ordabs.Value{az, ap, subst})
+		if !runORD(c, rC14Op, f.Name, f, err) {
+			return 0, false
+		}
+		if out[1] != nil {
+			return -1, true
+		}
+		sl, _ := out[0].(*ordabs.Slice)
+		if sl == nil {
+			return 0, true
+		}
+		return len(*sl.Elems), true
+	}
+	var fx []fixFact
+	for s := int64(7); s <= 13; s++ {
+		for e := s; e <= 13; e++ {
+			fx = append(fx, fixFact{k.TS, s, k.TS, e})
+		}
+		fx = append(fx, fixFact{k.NEG, 0, k.TS, s}, fixFact{k.TS, s, k.POS, 0})
+	}
+	fx = append(fx, fixFact{k.NEG, 0, k.POS, 0})
+	bad, n := "", 0
+	for _, x := range fx {
+		// variable annotation @[S,E]: every fact, two bindings
+		va := k.iv(k.VAR, 0, k.VAR, 0)
+		va.Fields["Start"].(*ordabs.Rec).Fields["Variable"].(*ordabs.Rec).Fields["Symbol"] = "S"
+		va.Fields["End"].(*ordabs.Rec).Fields["Variable"].(*ordabs.Rec).Fields["Symbol"] = "E"
+		got, ok = run(va, x)
+		if !ok {
+			return
+		}
+		n++
+		if (got != 1 || binds != 2) && bad == "" {
+			bad = fmt.Sprintf("annotation @[S,E] with unbound S,E, fact kinds(%d,%d)[%d,%d]: %d solution(s) and %d interval bindings, want 1 and 2 (it enumerates the stored intervals)", x.st, x.et, x.s, x.e, got, binds)
+		}
+		// concrete annotations, incl. half-unbounded ones
+		for _, q := range []fixFact{{k.TS, 9, k.TS, 11}, {k.TS, 10, k.TS, 10}, {k.NEG, 0, k.TS, 9}, {k.TS, 11, k.POS, 0}} {
+			got, ok = run(k.iv(q.st, q.s, q.et, q.e), x)
+			if !ok {
+				return
+			}
+			n++
+			covers := x.lo(k) <= q.lo(k) && q.hi(k) <= x.hi(k)
+			disjoint := !(x.lo(k) <= q.hi(k) && q.lo(k) <= x.hi(k))
+			// The documentation does not say whether a concrete annotation means "covers" or "intersects";
+			// both readings agree on these two cases, which is all that is required here.
+			if ((covers && got != 1) || (disjoint && got != 0)) && bad == "" {
+				bad = fmt.Sprintf("annotation kinds(%d,%d)[%d,%d], fact kinds(%d,%d)[%d,%d]: %d solution(s); a fact covering the annotation must match and a disjoint one must not", q.st, q.et, q.s, q.e, x.st, x.et, x.s, x.e, got)
+			}
+		}
+	}
+	c.Check(bad == "", rC14Op, f.Name, f.Decl.Pos(), fmt.Sprintf("agrees with the annotation semantics on %d annotation/fact combinations", n), bad)
+}
+
+func b2i(b bool) int {
+	if b {
+		return 1
+	}
+	return 0
 }
 
 func c14Dispatch(c *core.Ctx) {
